@@ -386,3 +386,48 @@ func NumDocs() *TextSet {
 		return NewTextSet(out)
 	})
 }
+
+// StrDocs: documents whose string values need escaping in JSON, YAML or the diff text.
+func StrDocs() *TextSet {
+	return memoize("StrDocs", func() *TextSet {
+		strs := []V{"", "a\nb", "\"q\"", "\u00e9", "\U0001F600", " lead", "trail ", "- x", "+ y", "@ z", "^ w", "[", "]", "true", "1", "null", "a\\b", "\t", "<&>"}
+		var out []V
+		for i, x := range strs {
+			out = append(out, x, []interface{}{x}, map[string]interface{}{"k": x})
+			y := strs[(i+1)%len(strs)]
+			out = append(out, []interface{}{x, y}, map[string]interface{}{"k": []interface{}{x, y, x}}, map[string]interface{}{"k": x, "j": y})
+		}
+		return NewTextSet(out)
+	})
+}
+
+// KeyedStr: keyed arrays whose identifying values are strings, booleans and null rather than
+// numbers (for SetKeys(id)).
+func KeyedStr() *TextSet {
+	return memoize("KeyedStr", func() *TextSet {
+		ids := []V{"a", "b", "", true, 1.0, "1"}
+		vals := []V{1.0, 2.0, []interface{}{1.0, 2.0}}
+		var members [][]V
+		for _, id := range ids {
+			var ms []V
+			for _, v := range vals {
+				ms = append(ms, map[string]interface{}{"id": id, "t": "x", "v": ref.Clone(v)})
+			}
+			members = append(members, ms)
+		}
+		var out []V
+		out = append(out, []interface{}{})
+		for i := range ids {
+			for _, m := range members[i] {
+				out = append(out, []interface{}{m})
+				for j := range ids {
+					if j == i {
+						continue
+					}
+					out = append(out, []interface{}{m, members[j][0]}, []interface{}{members[j][1], m})
+				}
+			}
+		}
+		return NewTextSet(out)
+	})
+}
